@@ -49,6 +49,11 @@ impl<'a> ExpressionReducer for UndefinedFunctionReducer<'a> {
                 self.visit_expressions(indices)?,
                 variable_info,
             )),
+            Expression::Property(left, name, expression_type) => Ok(Expression::Property(
+                Box::new(self.visit_expression(*left)?),
+                name,
+                expression_type,
+            )),
             Expression::BuiltInFunctionCall(name, args) => Ok(Expression::BuiltInFunctionCall(
                 name,
                 self.visit_expressions(args)?,
